@@ -146,7 +146,10 @@ func (r *Run) PickStrategy() string {
 		return "fair"
 	}
 	rng := r.Sim.Tape.Rng()
-	switch rng.IntN(8) {
+	switch rng.IntN(9) {
+	case 8:
+		r.Sim.SetStrategy(&simrt.SiteDelay{Salt: rng.Uint64(), Den: 3 + rng.IntN(6), Max: 2 + rng.IntN(6), Inner: &simrt.RunToBlock{Den: 4}})
+		return "site-delay"
 	case 0, 1:
 		r.Sim.SetStrategy(simrt.RandomWalk{})
 		return "random"
